@@ -347,6 +347,14 @@ class Gen:
         if k == 'select':
             return ('mark', ('selectc', self.arr(env), self.boolean(self.sub(env, x=True)), self.prex(env)))
         if k == 'try':
+            if self.scoping and r.chance(1, 2):
+                # the try block binds locals of its own and throws: the handler runs in a fresh scope, where those names
+                # mean what they mean outside the try block (a plain assignment in the handler reaches the outer binding)
+                self.note('try:locals of the try block')
+                v = r.choice(['_a', '_b', '_c', '_Zq'])
+                form = r.choice(['private', 'plain'])
+                # (the plain form declares the name first, so its value must not read the name)
+                return ('tryscope', v, self.num(env) if form == 'private' else ('n', r.below(9)), self.num(env), r.below(50), form)
             return ('tryst', self.num(env), self.boolean(env), self.num(env), self.num(env))
         return ('mark', self.num(env))
 
@@ -436,6 +444,13 @@ def render(n):
         return '({ if %s exitWith { tr pushBack %s; %s }; tr pushBack %s; %s } except__ { tr pushBack %s; %s })' % tuple(render(x) for x in n[1:8])
     if k == 'try':
         return '(try { tr pushBack %s; if %s then { throw %s }; %s } catch { tr pushBack _exception; %s })' % tuple(render(x) for x in n[1:6])
+    if k == 'tryscope':
+        v = n[1]
+        probe = '(if (isNil {%s}) then {-1} else {%s})' % (v, v)
+        bind = {'private': 'private %s = %s' % (v, render(n[2])), 'plain': 'private "%s"; %s = %s' % (v, v, render(n[2])),
+                'params': '[%s] params ["%s"]' % (render(n[2]), v)}[n[5]]
+        return 'try { %s; throw %s } catch { tr pushBack %s; tr pushBack _exception; %s = %d }; tr pushBack %s' % (
+            bind, render(n[3]), probe, v, n[4], probe)
     if k == 'tryst':
         return 'try { tr pushBack %s; if %s then { throw %s }; tr pushBack %s } catch { tr pushBack _exception }' % tuple(render(x) for x in n[1:5])
     if k == 'breakout':
@@ -953,6 +968,28 @@ class Interp:
             if this is NIL:
                 raise RuntimeErr('nil operand')
             return self.call_block(n[2], {'_this': this})
+        if k == 'tryscope':
+            v = n[1]
+
+            def probe():
+                x = self.lookup(v)
+                return self.mark(-1 if x is NIL else x)
+
+            def body():
+                val = self.ev(n[2])
+                if val is NIL:
+                    raise RuntimeErr('nil operand')
+                self.assign(v, val, private=True)
+                self.throw(self.ev(n[3]))
+            try:
+                self.in_scope(body)
+            except Thrown as t:
+                def handler():
+                    probe()
+                    self.mark(self.lookup('_exception'))
+                    self.assign(v, n[4])
+                self.in_scope(handler, {'_exception': t.value})
+            return probe()
         if k == 'tryst':
             def body():
                 self.mark(self.ev(n[1]))
